@@ -34,10 +34,13 @@ def legal(history, nports):
     running, occ = False, set()
     for a in history:
         if a in ("start", "ctx_ok", "ctx_exc"):
-            if running:
+            if running and a != "start":
                 return False
-            if a == "start" and not occ:
-                running = True
+            if a == "start":
+                # start on a running bridge is allowed as an input: it either fails like any bind failure
+                # (then nothing may be left listening) or is a no-op (then the bridge keeps listening);
+                # for the legality of later actions treat the bridge as possibly running
+                running = True if (not occ or running) else False
         elif a == "stop":
             running = False
         elif a == "send_then_stop":
@@ -68,7 +71,7 @@ class C17(Prop):
     level_text = ("All short action histories are enumerated on every run and longer ones sampled; after each action the running flag, the "
                   "bindability of every configured port and (when running) real delivery on every port are checked, a failed start must leave "
                   "nothing bound, and traffic sent while stopped must never reach the callback.")
-    level_note = "start() on a running bridge is outside the statement; 'released' is judged after two event-loop cycles"
+    level_note = "start() on a running bridge may either fail (then nothing may be left listening) or be a no-op (then it keeps listening): both are accepted, what follows is judged; 'released' is judged after two event-loop cycles"
     assumptions = ["a port is 'listening' iff a plain bind to it fails and a broadcast to it is delivered",
                    "foreign occupation = a UDP socket bound without SO_REUSEADDR"]
     anchors = ["aioswitcher.bridge:SwitcherBridge.start", "aioswitcher.bridge:SwitcherBridge.stop",
@@ -176,6 +179,21 @@ class C17(Prop):
         async def do_start(kind):
             nonlocal model
             expect_fail = bool(occupied)
+            if kind == "start" and model:
+                # second start on a running bridge: either outcome is fine, what follows is judged as usual
+                try:
+                    await bridge.start()
+                    trace.append("start-while-running returned")
+                    model = True
+                except OSError:
+                    trace.append("start-while-running raised OSError")
+                    model = False
+                except Exception as exc:
+                    trace.append(f"start-while-running raised {type(exc).__name__}")
+                    vio("start-wrong-exception", f"start on a running bridge raised {type(exc).__name__}: {exc}")
+                    model = False
+                acc.count("start_while_running")
+                return
             try:
                 if kind == "start":
                     await bridge.start()
